@@ -642,8 +642,13 @@ func (r *Runner) Exec(e Ev) {
 		case "nextprefix":
 			valid = it.NextPrefix()
 		default:
-			r.fail(errors.Newf("unknown iter op %s", e.S("o")))
-			return
+			st, ok := r.iterLim(it, e)
+			if !ok {
+				r.fail(errors.Newf("unknown iter op %s", e.S("o")))
+				return
+			}
+			valid = st == "valid"
+			e["st"] = st
 		}
 		res, err := r.iterRes(it, valid)
 		if err != nil {
